@@ -60,6 +60,15 @@ let line l =
   match split_on ' ' l with
   | "CONF" :: args -> set_conf args; print_endline "CONF ok"
   | ["RESET"] -> rs := []; last_key := None; print_endline "RESET ok"
+  | ["BUILD"; ci; ma; zi; realm; salt; addr; t0; ttl; uid; gid; au; ag; data; iv] ->
+      (* the SPEC-side builder (V3Accept.v3_build): any IV, any salt, any origin address, compression kept as is *)
+      let f = { f_cipher = n (int_of_string ci); f_mac = n (int_of_string ma); f_zip = n (int_of_string zi);
+                f_realm = unhex realm; f_salt = unhex salt; f_addr = unhex addr; f_time = n (int_of_string t0);
+                f_ttl = n (int_of_string ttl); f_uid = n (int_of_string uid); f_gid = n (int_of_string gid);
+                f_auth_uid = n (int_of_string au); f_auth_gid = n (int_of_string ag); f_data = unhex data } in
+      (match v3_build hmac sha1 blk_enc zcomp !conf.cf_key f (unhex iv) with
+       | Some c -> Printf.printf "BUILD %s\n" (hex c)
+       | None -> print_endline "BUILD none")
   | ["PURGE"; now] -> rs := r_purge (n (int_of_string now)) !rs; Printf.printf "PURGE %d\n" (List.length !rs)
   | ["ROLLBACK"] -> rs := dec_rollback !rs !last_key; last_key := None; print_endline "ROLLBACK ok"
   | ["ENC"; ci; ma; zi; realm; ttl; au; ag; data; retry; pu; pg; now; salt; iv] ->
